@@ -111,6 +111,9 @@ class Ctx:
             key, {"key": key, "what": what, "count": 0, "witnesses": []}
         )
         v["count"] += 1
+        ep = getattr(self, "episode", None)
+        if ep and isinstance(witness, dict) and "episode" not in witness:
+            witness = dict(witness, episode=ep)  # what re-creates the run that produced this witness
         if len(v["witnesses"]) < MAX_WITNESSES_PER_KEY:
             v["witnesses"].append(jsonable(witness))
 
